@@ -17,14 +17,19 @@ def generate(name):
     out = dict(name='lemma:' + name, sha=None, obligations=[], groups=[], error=None, assumptions=[], paths=0)
     try:
         for i, (label, hyps, goal) in enumerate(LEMMAS[name]()):
+            kind = 'lemma'
+            if label.startswith('KNOWN:'):
+                # a lemma that is expected NOT to hold: a recorded finding (known-full obligation)
+                _, kid, label = label.split(':', 2)
+                kind = 'known-full:' + kid
             oname = 'lemma:%s/%s' % (name, label)
-            out['obligations'].append((oname, 'lemma', 'g', label))
+            out['obligations'].append((oname, kind, 'g', label))
             s = z3.Solver()
             s.add(hyps)
             p = z3.Bool('pyvc_goal_0')
             s.add(z3.Implies(p, z3.Not(goal)))
             text = s.to_smt2()
-            out['groups'].append(dict(prelude=text[:text.rindex('(check-sat)')], checks=[(oname, 'lemma', label, 'pyvc_goal_0')]))
+            out['groups'].append(dict(prelude=text[:text.rindex('(check-sat)')], checks=[(oname, kind, label, 'pyvc_goal_0')]))
             # vacuity guard: the hypotheses of the lemma must not be contradictory
             s2 = z3.Solver()
             s2.add(hyps)
@@ -256,3 +261,100 @@ def c01_bits_identity():
     A3 = [z3.Implies(z3.And(_band(a, M) == a, _band(b, M) == 0), _bor(a, b) == a + b)]
     out.append(('identity', base + a1_I + A2 + A3 + [a == own * _P(s), _band(a, M) == a, _band(b, M) == 0], _bor(a, b) == I_))
     return out
+
+
+# ====================================================================== C18: the language of the pieces
+def _rx_theory():
+    """ASSUMED denotation of the piece shapes the code can emit (full match of a region, flag (?s));
+    cross-checked against CPython's re on every run by pyvc/probe_c18.py (bounded)."""
+    esc = z3.Function('re_escape', T.Bytes, T.Bytes)
+    lang = z3.Function('rx_lang', T.Bytes, T.Bytes, T.B)
+    strfmt = z3.Function('strfmt', T.S, T.Val, T.S)
+    enc = z3.Function('encode_ascii', T.S, T.Bytes)
+    dotn = lambda n: enc(strfmt(z3.StringVal('.{%i}'), T.Val.VI(n)))
+    DOTSTAR = z3.Const('bytes_dotstar', T.Bytes)          # the text b".*"
+    x, s, t, a, b = z3.Consts('x s t a b', T.Bytes)
+    n = z3.Int('n')
+    ax = [
+        z3.ForAll([x, s], lang(esc(x), s) == (s == x), patterns=[lang(esc(x), s)]),
+        z3.ForAll([n, s], z3.Implies(n >= 0, lang(dotn(n), s) == (T.blen(s) == n)), patterns=[lang(dotn(n), s)]),
+        z3.ForAll([s], lang(DOTSTAR, s), patterns=[lang(DOTSTAR, s)]),
+        z3.ForAll([a, b, s, t], z3.Implies(z3.And(lang(a, s), lang(b, t)), lang(T.bconcat(a, b), T.bconcat(s, t))),
+                  patterns=[z3.MultiPattern(lang(a, s), lang(b, t), T.bconcat(a, b), T.bconcat(s, t))]),
+    ]
+    return esc, lang, dotn, DOTSTAR, ax
+
+
+@lemma('C18.int_pieces')
+def c18_int_pieces():
+    """Int: the region raw[o:o+n] that decodes (contract C05) to the pattern's value is in the language of the
+    piece Int.pack_regexp appends (contract): escape(to_bytes(value)) for a fixed value, .{n} for Any."""
+    esc, lang, dotn, DOTSTAR, ax = _rx_theory()
+    raw = z3.Const('raw', T.Bytes)
+    o, n, v = z3.Ints('o n v')
+    big, sg = z3.Bools('big sg')
+    region = T.bslice(raw, o, o + n)
+    base = T.bytes_axioms() + T.int_bytes_axioms() + ax + [n >= 1, o >= 0, o + n <= T.blen(raw)]
+    return [
+        ('fixed value: the decoded region is exactly the escaped literal', base + [v == T.bval(region, big, sg)],
+         lang(esc(T.bofint(v, n, big, sg)), region)),
+        ('Any: n bytes', base, lang(dotn(n), region)),
+    ]
+
+
+@lemma('C18.data_pieces')
+def c18_data_pieces():
+    """Data: sized by a constant / a field / a callback answering m (contract C06: value == raw[o:o+m], region the same);
+    delimited by a bytes marker (value == raw[o:c], region raw[o:c+|marker|], the marker follows the value)."""
+    esc, lang, dotn, DOTSTAR, ax = _rx_theory()
+    raw, marker = z3.Consts('raw marker', T.Bytes)
+    o, m, c = z3.Ints('o m c')
+    base = T.bytes_axioms() + ax + [o >= 0]
+    sized = base + [m >= 0, o + m <= T.blen(raw)]
+    value = T.bslice(raw, o, o + m)
+    # delimited: value = raw[o:c], raw[c:c+|marker|] == marker, consumed region = raw[o:c+|marker|]
+    L = T.blen(marker)
+    delim = base + [c >= o, L >= 1, c + L <= T.blen(raw), T.bslice(raw, c, c + L) == marker]
+    v2 = T.bslice(raw, o, c)
+    region2 = T.bslice(raw, o, c + L)
+    split = [T.ext_instance(region2, T.bconcat(v2, marker))]
+    return [
+        ('sized, fixed value (no delimiter to re-emit)', sized, lang(esc(T.bconcat(value, T.bempty)), value)),
+        ('sized, Any: m bytes', sized, lang(dotn(m), value)),
+        ('size unknown, Any: anything', sized, lang(DOTSTAR, value)),
+        ('region of a delimited value is value ++ marker', delim + split, region2 == T.bconcat(v2, marker)),
+        ('delimited (consumed, not included), fixed value: escape(value ++ marker)', delim + split,
+         lang(esc(T.bconcat(v2, marker)), region2)),
+        ('delimited (consumed, not included), Any: .* ++ escape(marker)', delim + split,
+         lang(T.bconcat(DOTSTAR, esc(marker)), region2)),
+        ('delimited, delimiter kept in the value, Any: .* ++ escape(marker) on the value itself', delim + split,
+         lang(T.bconcat(DOTSTAR, esc(marker)), T.bconcat(v2, marker))),
+    ]
+
+
+@lemma('C18.not_consumed_delimiter')
+def c18_not_consumed():
+    """KNOWN FINDING K18a: with consume_delimiter=False the consumed region is the value alone (the delimiter stays in
+    the input for the next field) but the piece still ends in the escaped delimiter: the region is NOT in its language,
+    and in the assembled expression the delimiter is matched twice."""
+    esc, lang, dotn, DOTSTAR, ax = _rx_theory()
+    raw, marker = z3.Consts('raw marker', T.Bytes)
+    o, c = z3.Ints('o c')
+    L = T.blen(marker)
+    base = T.bytes_axioms() + ax + [o >= 0, c >= o, L >= 1, c + L <= T.blen(raw), T.bslice(raw, c, c + L) == marker]
+    v2 = T.bslice(raw, o, c)
+    return [('KNOWN:K18a:not consumed: the region (the value alone) is in the language of .* ++ escape(marker)', base,
+             lang(T.bconcat(DOTSTAR, esc(marker)), v2))]
+
+
+@lemma('C18.constrained_any')
+def c18_constrained_any():
+    """KNOWN FINDING K18b: Any(startswith=/endswith=/contains=) compares equal to every value in which its expression
+    is FOUND (re.search, unanchored) but contributes that expression as a piece that must match the whole region:
+    a value that merely contains a match equals the pattern and is not in the language of the piece."""
+    esc, lang, dotn, DOTSTAR, ax = _rx_theory()
+    a, b, c, custom = z3.Consts('a b c custom', T.Bytes)
+    v = T.bconcat(T.bconcat(a, b), c)
+    base = T.bytes_axioms() + ax + [lang(custom, b)]          # the expression is found inside v = a ++ b ++ c
+    return [('KNOWN:K18b:a value in which the expression of a constrained Any is found is in the language of that expression', base,
+             lang(custom, v))]
